@@ -1,7 +1,7 @@
 use super::error;
 use super::model::{self, AsValue};
 use std::ops::Range;
-use xml_dom::{self as dom, AsExpandedName, Attr, Document, Element, Node};
+use xml_dom::{self as dom, AsExpandedName, AsNode, Attr, Document, Node};
 
 pub type XPathFunc =
     dyn Fn(Vec<model::Value>, dom::XmlNode, &mut model::Context) -> error::Result<model::Value>;
@@ -531,18 +531,33 @@ fn lang(
     node: dom::XmlNode,
     _: &mut model::Context,
 ) -> error::Result<model::Value> {
-    let name = String::try_from(args.first().unwrap())?;
+    let name = String::try_from(args.first().unwrap())?.to_ascii_lowercase();
 
-    let mut n = Some(node);
-    while let Some(dom::XmlNode::Element(element)) = n {
-        // FIXME: namespace
-        if let Some(attr) = element.get_attribute_node("lang") {
-            if attr.value()? == name {
-                return Ok(model::Value::Boolean(true));
+    let mut n = match node {
+        dom::XmlNode::Attribute(v) => v.owner_element().map(|v| v.as_node()),
+        _ => Some(node),
+    };
+    while let Some(current) = n {
+        if let dom::XmlNode::Element(element) = &current {
+            // the nearest xml:lang decides, whatever it says
+            let attr = element.attributes().and_then(|attrs| {
+                attrs
+                    .iter()
+                    .find(|v| v.as_node().to_string().starts_with("xml:lang="))
+            });
+            if let Some(attr) = attr {
+                // equal ignoring case, or equal to the part before a '-' suffix
+                let value = attr.value()?.to_ascii_lowercase();
+                let matched = value == name
+                    || value
+                        .strip_prefix(name.as_str())
+                        .map(|v| v.starts_with('-'))
+                        .unwrap_or_default();
+                return Ok(model::Value::Boolean(matched));
             }
         }
 
-        n = element.parent_node();
+        n = current.parent_node();
     }
 
     Ok(model::Value::Boolean(false))
